@@ -345,6 +345,8 @@ Definition sk_extracted_datetime : list ev :=
    Ret;
    Handler "ValueError";
    Ret;
+   Handler "OverflowError";
+   Ret;
    TryE;
    Else;
    IfE;
